@@ -407,7 +407,8 @@ Record dep_ok (c : cfg) (s' : st) (d : dep) : Prop := MkDepOk {
   k_liver : forall n, In n (d_srs d) -> In n (srs s') /\ live_in c s' (false, n);
   k_ck : d_ck d = map (fun _ => completed (sto s')) (d_ops d);
   k_depck : dep_ck s' = completed (sto s');
-  k_peers : d_peers d = true
+  k_peers : d_peers d = true;
+  k_pend : q_keep_pending (qk c) = false -> q_keep_savepoint (qk c) = false -> pend (sto s') = None
 }.
 
 Lemma start_begin_deps : forall c s, Inv c s ->
@@ -423,6 +424,7 @@ Proof.
   - apply sorted_NoDup, sorted_firstn, (i_ssrs _ _ Ip).
   - intros n Hn. apply In_firstn in Hn. split; [exact Hn|]. apply (purged_live_op c s n I Hn).
   - intros n Hn. apply In_firstn in Hn. split; [exact Hn|]. apply (purged_live_sr c s n I Hn).
+  - intros Q1 Q2. cbn [pend]. rewrite Q1, Q2. cbn [andb]. destruct (pend (sto sp)); reflexivity.
 Qed.
 
 Lemma evaluate_deps : forall c s d, Inv c s -> In d (snd (evaluate c s)) ->
@@ -809,29 +811,37 @@ Proof.
   - intros H. exists n. auto.
 Qed.
 
-Lemma checkpoints_resume_proof : forall c l acks,
+Definition starter_sp (o : op) : bool := match o with OSavepoint => true | _ => false end.
+
+Lemma checkpoints_resume_proof : forall c l acks starter,
   q_keep_pending (qk c) = false -> q_splitters_accumulate (qk c) = false -> (0 < wc c)%nat ->
+  starter = OTick \/ starter = OSavepoint ->
   let s := exec c l in
   stat s = Running -> pend (sto s) = None ->
   let id := ctr (sto s) + 1 in
   NoDup acks -> (forall a, In a acks <-> member_ack s id a) ->
-  let s1 := fst (step c s OTick) in
+  let s1 := fst (step c s starter) in
   let r := run c s1 acks in
-  o_started (snd (step c s OTick)) = a_srs s /\ o_cid (snd (step c s OTick)) = id /\
+  o_started (snd (step c s starter)) = a_srs s /\ o_cid (snd (step c s starter)) = id /\
+  o_res (snd (step c s starter)) = 0 /\
+  (forall p, pend (sto s1) = Some p -> p_sp p = starter_sp starter) /\
   completed (sto s) < id /\
   pend (sto (fst r)) = None /\ completed (sto (fst r)) = id /\
   Forall (fun b => o_res b = 0) (snd r) /\ (exists b, In b (snd r) /\ o_published b = id) /\
   stat (fst r) = Running.
 Proof.
-  intros c l acks Qp Qs Hw s E Pn id ND Hacks s1 r.
+  intros c l acks starter Qp Qs Hw Hst s E Pn id ND Hacks s1 r.
   pose proof (exec_inv c l) as I. fold s in I.
-  assert (T : step c s OTick =
-              (set_sto s (MkStore (Some (MkPending id (map (fun n => (n, false)) (a_ops s)) (map (fun n => (n, false)) (a_srs s))))
+  assert (T : step c s starter =
+              (set_sto s (MkStore (Some (MkPending id (map (fun n => (n, false)) (a_ops s)) (map (fun n => (n, false)) (a_srs s)) (starter_sp starter)))
                                   (completed (sto s)) id (splitters (sto s))),
                MkObs (status_code Running) [] (a_srs s) id 0 0 0)).
-  { cbn [step]. rewrite E. unfold create_checkpoint. rewrite Pn. cbn [set_sto stat]. rewrite E. reflexivity. }
-  unfold r, s1. rewrite T. cbn [fst snd o_started o_cid].
-  split; [reflexivity|]. split; [reflexivity|].
+  { destruct Hst as [-> | ->]; cbn [step starter_sp]; rewrite E.
+    - unfold create_checkpoint. rewrite Pn. cbn [set_sto stat]. rewrite E. reflexivity.
+    - unfold create_savepoint. rewrite Pn. cbn [set_sto stat]. rewrite E. reflexivity. }
+  unfold r, s1. rewrite T. cbn [fst snd o_started o_cid o_res].
+  split; [reflexivity|]. split; [reflexivity|]. split; [reflexivity|].
+  split; [intros p Hp; cbn in Hp; inversion Hp; reflexivity|].
   pose proof (i_sto _ _ I) as [A _]. split; [unfold id; lia|].
   destruct (i_asm _ _ I) as [La [Lr [So Sr]]]; [congruence|].
   destruct (i_spl _ _ I Qs) as [X|Spl]; [congruence|].
@@ -839,7 +849,7 @@ Proof.
   assert (Hne : acks <> []).
   { destruct (a_ops s) as [|n t] eqn:Ao; [cbn in La; lia|].
     intros ->. apply (proj2 (Hacks (OAckOp n id))). left. exists n. split; [reflexivity | rewrite Ao; left; reflexivity]. }
-  destruct (acks_complete c acks s0' (MkPending id (map (fun n => (n, false)) (a_ops s)) (map (fun n => (n, false)) (a_srs s))) id)
+  destruct (acks_complete c acks s0' (MkPending id (map (fun n => (n, false)) (a_ops s)) (map (fun n => (n, false)) (a_srs s)) (starter_sp starter)) id)
     as [R1 [R2 [R3 [R4 [R5 _]]]]]; auto.
   - cbn [p_ops]. rewrite map_fst_false. apply sorted_NoDup, So.
   - cbn [p_srs]. rewrite map_fst_false. apply sorted_NoDup, Sr.
@@ -848,9 +858,29 @@ Proof.
   - split; [exact R1|]. split; [exact R2|]. split; [exact R3|]. split; [exact R4|]. rewrite R5. exact E.
 Qed.
 
+(* a deployment starts with nothing pending: whatever was in flight when the assembly was lost - a periodic checkpoint,
+   a requested savepoint, a checkpoint upgraded to a savepoint - is aborted *)
+Lemma start_clears_pending_proof : forall c l o d,
+  q_keep_pending (qk c) = false -> q_keep_savepoint (qk c) = false ->
+  In d (o_deps (snd (step c (exec c l) o))) -> pend (sto (fst (step c (exec c l) o))) = None.
+Proof.
+  intros c l o d Q1 Q2 Hd. destruct (step_deps c (exec c l) o d (exec_inv c l) Hd) as [_ K]. apply (k_pend _ _ _ K Q1 Q2).
+Qed.
+
+(* a savepoint request folds into the periodic checkpoint in flight: same id, nothing started, and the members' acks
+   still complete it (the pending snapshot keeps its members and flags) *)
+Lemma savepoint_folds_proof : forall c s p,
+  stat s = Running -> pend (sto s) = Some p -> p_sp p = false ->
+  step c s OSavepoint =
+  (set_sto s (MkStore (Some (MkPending (p_id p) (p_ops p) (p_srs p) true)) (completed (sto s)) (ctr (sto s)) (splitters (sto s))),
+   MkObs (status_code Running) [] [] (p_id p) 0 0 0).
+Proof.
+  intros c s p E P F. cbn [step]. rewrite E. unfold create_savepoint. rewrite P, F. cbn [set_sto stat]. rewrite E. reflexivity.
+Qed.
+
 (* a checkpoint of the running assembly that is already in flight: the acks still missing complete it *)
 Lemma checkpoints_resume_inflight_proof : forall c l p acks,
-  q_keep_pending (qk c) = false -> q_splitters_accumulate (qk c) = false ->
+  q_keep_pending (qk c) = false -> q_keep_savepoint (qk c) = false -> q_splitters_accumulate (qk c) = false ->
   let s := exec c l in
   stat s = Running -> pend (sto s) = Some p ->
   NoDup acks -> (forall a, In a acks <-> ack_of (p_id p) p a) -> acks <> [] ->
@@ -858,8 +888,8 @@ Lemma checkpoints_resume_inflight_proof : forall c l p acks,
   pend (sto (fst (run c s acks))) = None /\ completed (sto (fst (run c s acks))) = p_id p /\
   Forall (fun b => o_res b = 0) (snd (run c s acks)) /\ stat (fst (run c s acks)) = Running.
 Proof.
-  intros c l p acks Qp Qs s E P ND Hacks Hne. pose proof (exec_inv c l) as I. fold s in I.
-  destruct (i_pnd _ _ I Qp p P) as [Ko Kr].
+  intros c l p acks Qp Qv Qs s E P ND Hacks Hne. pose proof (exec_inv c l) as I. fold s in I.
+  destruct (i_pnd _ _ I (conj Qp Qv) p P) as [Ko Kr].
   destruct (i_asm _ _ I) as [La [Lr [So Sr]]]; [congruence|].
   destruct (i_spl _ _ I Qs) as [X|Spl]; [congruence|].
   split.
@@ -880,7 +910,7 @@ Definition hist_d18 : list op := [ORegOp 0; ORegSr 0; OFin true; OTick; ODeregOp
 Definition hist_d30 : list op := [ORegOp 0; ORegSr 0; OFin true; OTick; OAckOp 0 1; OAckSr 0 1; ODeregOp 0; ORegOp 1; OFin true].
 
 Lemma checkpoints_resume_refuted_keep_pending_proof :
-  let c := cfg_of (MkQuirks true false false) in
+  let c := cfg_of (MkQuirks true false false false) in
   let s := exec c hist_d18 in
   stat s = Running /\ a_ops s = [1] /\ a_srs s = [0] /\
   (* every tick from now on starts nothing, whatever the members of the running assembly acknowledge *)
@@ -888,7 +918,7 @@ Lemma checkpoints_resume_refuted_keep_pending_proof :
             completed (sto s') = 0 /\ o_started (snd (step c s' OTick)) = [].
 Proof.
   cbv zeta. split; [vm_compute; reflexivity|]. split; [vm_compute; reflexivity|]. split; [vm_compute; reflexivity|].
-  intros k. set (c := cfg_of (MkQuirks true false false)). set (s := exec c hist_d18).
+  intros k. set (c := cfg_of (MkQuirks true false false false)). set (s := exec c hist_d18).
   assert (T : forall k, fst (run c s (repeat OTick k ++ [OAckOp 1 1; OAckSr 0 1; OAckOp 1 2; OAckSr 0 2; OTick])) =
                         fst (run c s [OAckOp 1 1; OAckSr 0 1; OAckOp 1 2; OAckSr 0 2; OTick])).
   { intros j. induction j as [|j IH]; [reflexivity|]. cbn [repeat app]. rewrite <- IH.
@@ -900,12 +930,26 @@ Proof.
 Qed.
 
 Lemma checkpoints_resume_refuted_splitters_proof :
-  let c := cfg_of (MkQuirks false true false) in
+  let c := cfg_of (MkQuirks false true false false) in
   let s := exec c hist_d30 in
   stat s = Running /\ a_ops s = [1] /\ a_srs s = [0] /\ pend (sto s) = None /\
   map o_res (snd (run c s [OTick; OAckOp 1 2; OAckSr 0 2])) = [0; 0; 2] /\
   completed (sto (fst (run c s [OTick; OAckOp 1 2; OAckSr 0 2]))) = 1.
 Proof. vm_compute. repeat split; reflexivity. Qed.
+
+(* seeded C15-3: the abort spares savepoints. A requested savepoint (hist_sp_a) or a periodic checkpoint upgraded to a
+   savepoint (hist_sp_b) is in flight when the operator leaves *)
+Definition hist_sp_a : list op := [ORegOp 0; ORegSr 0; OFin true; OSavepoint; OAckSr 0 1; ODeregOp 0; ORegOp 1; OFin true].
+Definition hist_sp_b : list op := [ORegOp 0; ORegSr 0; OFin true; OTick; OSavepoint; OAckSr 0 1; ODeregOp 0; ORegOp 1; OFin true].
+
+Lemma checkpoints_resume_refuted_keep_savepoint_proof :
+  let c := cfg_of (MkQuirks false false false true) in
+  forall h, h = hist_sp_a \/ h = hist_sp_b ->
+  let s := exec c h in
+  stat s = Running /\ a_ops s = [1] /\ a_srs s = [0] /\
+  step c s OTick = (s, mk_obs s []) /\ o_res (snd (step c s OSavepoint)) = 1 /\ fst (step c s OSavepoint) = s /\
+  completed (sto (fst (run c s [OAckOp 1 1; OAckSr 0 1; OAckOp 1 2; OAckSr 0 2]))) = 0.
+Proof. intros c h [-> | ->]; vm_compute; repeat split; reflexivity. Qed.
 
 (* ---------------------------------------------------------------- the operator's checkpoint slot *)
 Lemma oper_barriers_complete : forall id runners w order,
